@@ -45,6 +45,7 @@ type rejectedProposal struct {
 }
 
 type rt struct {
+	t0            time.Time          // start of the run (monotonic reference of the events' "t")
 	rejectedSeen  []rejectedProposal // proposals the consumer rejected: the (Byzantine) peers vote for them all the same
 	panicAtCommit int64              // the n-th commit callback of the run panics (0: never)
 	lingerMs      int32
@@ -91,6 +92,7 @@ func (r *rt) log(ev string, f obj) {
 	}
 	r.mu.Lock()
 	e["seq"] = atomic.AddInt64(&r.seq, 1)
+	e["t"] = int(time.Since(r.t0) / time.Microsecond) // monotonic clock, microseconds since the run began (read under the log's lock)
 	r.events = append(r.events, e)
 	r.mu.Unlock()
 }
@@ -104,6 +106,7 @@ func (r *rt) logf(ev string, f func() obj) {
 		e[k] = v
 	}
 	e["seq"] = atomic.AddInt64(&r.seq, 1)
+	e["t"] = int(time.Since(r.t0) / time.Microsecond)
 	r.events = append(r.events, e)
 	r.mu.Unlock()
 }
@@ -653,13 +656,16 @@ func (r *rt) flood() {
 	}
 }
 
+// the configured election timeout of view 0: deliberately neither a whole number of milliseconds nor a round binary fraction
+const rtTimeoutOnV0 = 2500 * time.Microsecond
+
 var rtRunLimit = 240 * time.Second
 var currentRt atomic.Value // *rt of the run in progress
 
 func runRuntime(p rtParams, runId int) []rtEvent {
 	rnd := newRand(p.seed)
 	cl := newCluster([]uint64{1, 1, 1, 1}, []int{0, 1, 2, 3}, 1, rnd.Intn(2) == 0) // no cluster nodes: every key is held by the harness
-	r := &rt{cl: cl, adv: newAdversary(cl), me: cl.ids[0], rnd: newRand(p.seed + 1), maxOkSync: -1, blocked: map[int]*blockedCall{}, proofs: map[int][]byte{}, elecCh: make(chan *interfaces.ElectionTrigger),
+	r := &rt{t0: time.Now(), cl: cl, adv: newAdversary(cl), me: cl.ids[0], rnd: newRand(p.seed + 1), maxOkSync: -1, blocked: map[int]*blockedCall{}, proofs: map[int][]byte{}, elecCh: make(chan *interfaces.ElectionTrigger),
 		blockProb: map[string]int{"committee": rnd.Intn(30), "propose": rnd.Intn(60), "validate": rnd.Intn(60), "commit": rnd.Intn(40)}, ctxOnly: rnd.Intn(70)}
 	atomic.StoreInt32(&r.failCommit, int32(rnd.Intn(25)))
 	currentRt.Store(r)
@@ -670,7 +676,7 @@ func runRuntime(p rtParams, runId int) []rtEvent {
 		r.panicAtCommit = int64(1 + rnd.Intn(3))
 	}
 	cfg := &interfaces.Config{InstanceId: clusterInstance, Communication: r, Membership: r, BlockUtils: r,
-		KeyManager: &nodeKeyManager{ring: cl.ring, me: r.me}, ElectionTimeoutOnV0: 3 * time.Millisecond}
+		KeyManager: &nodeKeyManager{ring: cl.ring, me: r.me}, ElectionTimeoutOnV0: rtTimeoutOnV0}
 	if !p.realTimer {
 		cfg.OverrideElectionTrigger = r
 	}
@@ -713,7 +719,7 @@ func runRuntime(p rtParams, runId int) []rtEvent {
 	defer func() { state.VerifCtxHook = nil }()
 	base := moduleGoroutines()
 	ctx, cancel := context.WithCancel(context.Background())
-	r.log("init", obj{"consumer_panics": p.consumerPanic, "garbage": p.garbage, "run": runId, "seed": p.seed, "cancelat": p.cancelAt, "blockprob": fmt.Sprint(r.blockProb), "ctxonly": r.ctxOnly, "realtimer": p.realTimer, "base": base})
+	r.log("init", obj{"consumer_panics": p.consumerPanic, "garbage": p.garbage, "run": runId, "seed": p.seed, "cancelat": p.cancelAt, "blockprob": fmt.Sprint(r.blockProb), "ctxonly": r.ctxOnly, "realtimer": p.realTimer, "base": base, "timeout_us": int(rtTimeoutOnV0 / time.Microsecond)})
 	waiter := r.main.Run(ctx)
 	cancelled := false
 	doCancel := func() {
